@@ -97,7 +97,7 @@ impl From<String> for B {
 #[derive(Clone, Debug, PartialEq, Eq, Serialize, Deserialize, Default)]
 pub struct WireRequest {
     pub method: String,
-    /// request target: origin form ("/p?q"), "*", or absolute form
+    /// request target: origin form ("/p?q"), "*", absolute form or authority form ("host:port")
     pub uri: String,
     /// 9, 10, 11, 2, 3
     pub version: u8,
@@ -131,7 +131,8 @@ impl WireRequest {
                 None => "",
             }
         } else {
-            u
+            // authority form ("host:port", as with CONNECT): no path, no query
+            ""
         }
     }
     pub fn header_first(&self, name_lc: &str) -> Option<&B> {
